@@ -94,6 +94,29 @@ var paths = []pathSpec{
 	parsed("open: rotated small arc against the sweep, then a vertical line", "M0 0A5 2.5 40 0 0 8 3L8 7"),
 	parsed("large arc then a line back to the start's y", "M2 2A3 3 0 1 1 6 2L4 2L4 0z"),
 	{"ellipse from canvas.Ellipse", func() *canvas.Path { return canvas.Ellipse(4, 2.5).Translate(4, 2.5) }, "Ellipse(4,2.5) translated by (4,2.5)"},
+	{"square with a clockwise hole and a clockwise square beside it, overlapped by a counter clockwise triangle (orientation sensitive)", func() *canvas.Path {
+		p := &canvas.Path{}
+		p.MoveTo(0, 0)
+		p.LineTo(6, 0)
+		p.LineTo(6, 6)
+		p.LineTo(0, 6)
+		p.Close()
+		p.MoveTo(1, 1)
+		p.LineTo(1, 4)
+		p.LineTo(4, 4)
+		p.LineTo(4, 1)
+		p.Close()
+		p.MoveTo(7, 1)
+		p.LineTo(7, 5)
+		p.LineTo(9, 5)
+		p.LineTo(9, 1)
+		p.Close()
+		p.MoveTo(5, 2)
+		p.LineTo(8.5, 3)
+		p.LineTo(5, 7)
+		p.Close()
+		return p
+	}, "M0 0L6 0L6 6L0 6zM1 1L1 4L4 4L4 1zM7 1L7 5L9 5L9 1zM5 2L8.5 3L5 7z"},
 }
 
 const nBasePaths = 5
@@ -157,6 +180,7 @@ type styleSpec struct {
 	width   float64
 	cap     int // 0 butt 1 round 2 square
 	join    int
+	rule    int // 0: NonZero or EvenOdd (see evenOdd), +1 Positive, -1 Negative
 	dash    int // 0 none, 1 [2 1], 2 [1 0 2 3], 3 [2 1] offset -1, 4 [3 3] offset -1 (odd-length after canonicalisation), 5 [1 2 3] offset -2
 	evenOdd bool
 }
@@ -204,6 +228,22 @@ var styles = []styleSpec{
 	{name: "fill gradient + stroke gradient B w2 (two different gradients)", fill: fillGradient, stroke: strokeGradient, width: 2},
 	{name: "fill red + stroke blue EvenOdd", fill: fillRed, stroke: strokeBlue, width: 1, evenOdd: true},
 	{name: "fill red + stroke blue w2 miter-clip dashes [2 1]", fill: fillRed, stroke: strokeBlue, width: 2, join: joinMiterClip, dash: 1},
+}
+
+// styleAt: indices from len(styles) on are the styles of family R.
+func styleAt(i int) styleSpec {
+	if i >= len(styles) {
+		return ruleStyles[i-len(styles)]
+	}
+	return styles[i]
+}
+
+// styles of family R only: the fill rules that no output format knows
+var ruleStyles = []styleSpec{
+	{name: "fill red Positive", fill: fillRed, width: 1, rule: 1},
+	{name: "fill red Negative", fill: fillRed, width: 1, rule: -1},
+	{name: "fill red alpha 0.5 + stroke blue Positive", fill: fillRedHalf, stroke: strokeBlue, width: 1, rule: 1},
+	{name: "fill gradient + stroke blue alpha 0.5 Negative", fill: fillGradient, stroke: strokeBlueHalf, width: 1, rule: -1},
 }
 
 var gradStart, gradEnd = canvas.Point{X: 2, Y: 3}, canvas.Point{X: 30, Y: 18}
@@ -280,9 +320,14 @@ func (s styleSpec) apply(ctx *canvas.Context) {
 	case 5:
 		ctx.SetDashes(-2, 1, 2, 3)
 	}
-	if s.evenOdd {
+	switch {
+	case s.rule > 0:
+		ctx.SetFillRule(canvas.Positive)
+	case s.rule < 0:
+		ctx.SetFillRule(canvas.Negative)
+	case s.evenOdd:
 		ctx.SetFillRule(canvas.EvenOdd)
-	} else {
+	default:
 		ctx.SetFillRule(canvas.NonZero)
 	}
 }
@@ -337,7 +382,7 @@ func (p program) String() string {
 			continue
 		}
 		fmt.Fprintf(&sb, "; ctx.SetCoordSystem(%s); ctx.SetView(%s); style{%s}; ctx.DrawPath(%g,%g, %s [%s])",
-			coordNames[d.cs], views[d.view].name, styles[d.style].name, positions[k][0], positions[k][1], paths[d.path].name, paths[d.path].text)
+			coordNames[d.cs], views[d.view].name, styleAt(d.style).name, positions[k][0], positions[k][1], paths[d.path].name, paths[d.path].text)
 	}
 	return sb.String()
 }
@@ -352,7 +397,7 @@ func (p program) canvas() *canvas.Canvas {
 			ctx.DrawImage(positions[k][0], positions[k][1], mkImage(d.img-1), canvas.DPMM(imageRes[d.res]))
 			continue
 		}
-		styles[d.style].apply(ctx)
+		styleAt(d.style).apply(ctx)
 		ctx.DrawPath(positions[k][0], positions[k][1], paths[d.path].build())
 	}
 	return c
@@ -480,14 +525,20 @@ func expectedList(ops []rec.Op) ([]expItem, string) {
 			if bad != "" {
 				return nil, bad
 			}
-			if st.FillRule != canvas.NonZero && st.FillRule != canvas.EvenOdd {
-				return nil, "fill rule outside {NonZero, EvenOdd}"
-			}
 			pls := mapPolys(oracle.DenseData(op.Data, 48), m)
 			for i := range pls {
 				pls[i].Closed = true
 			}
-			out = append(out, expItem{item: item{role: "fill", reg: region{key: dataKey, pls: pls, evenOdd: st.FillRule == canvas.EvenOdd}, paint: p}, op: k})
+			// Positive / Negative: the orientation of the contours as drawn, i.e. after the layer matrix
+			// (what rasterizer.RenderPath settles); a reflecting view turns every contour around
+			sign := 0
+			switch st.FillRule {
+			case canvas.Positive:
+				sign = 1
+			case canvas.Negative:
+				sign = -1
+			}
+			out = append(out, expItem{item: item{role: "fill", reg: region{key: dataKey, pls: pls, evenOdd: st.FillRule == canvas.EvenOdd, sign: sign}, paint: p}, op: k})
 		}
 		if st.HasStroke() {
 			p, bad := toPaint(st.Stroke)
@@ -749,6 +800,18 @@ func compareLists(r *fw.R, be backend, exp []expItem, act *displayList, ops []re
 	}
 	isPS := fam == "ps"
 	structural := len(out)
+	// a Positive/Negative fill whose region is empty (every contour turns the other way) need not be written at all
+	if len(exp) > len(act.items) {
+		var kept []expItem
+		for _, e := range exp {
+			if e.role == "fill" && e.reg.sign != 0 && insideBits(e.reg).count() == 0 {
+				r.Outcome("empty-region-not-written")
+				continue
+			}
+			kept = append(kept, e)
+		}
+		exp = kept
+	}
 	if len(exp) != len(act.items) {
 		var roles []string
 		for _, it := range act.items {
@@ -1286,6 +1349,17 @@ func allFamilies(tier string) []fw.Family {
 	fs = append(fs, fw.Family{Name: "P depth 1: path data: {fill, stroke, fill EvenOdd} x extended geometry menu x view x coordinate system", N: oracle.Prod(radP...),
 		Check: func(i int64, r *fw.R) { checkProgram(r, progP(i), main3, true) },
 		Desc:  func(i int64) string { return progP(i).String() }})
+
+	// R: the fill rules Positive and Negative (no output format has them: the back-ends must settle the path as the rasterizer does)
+	rPaths := []int{1, 3, len(paths) - 1}
+	radR := []int{len(ruleStyles), len(rPaths), nV, nC}
+	progR := func(i int64) program {
+		g := oracle.Digits(i, radR...)
+		return program{{path: rPaths[g[1]], style: len(styles) + g[0], view: g[2], cs: g[3]}}
+	}
+	fs = append(fs, fw.Family{Name: "R depth 1: fill rules Positive and Negative: 4 styles x {overlapping squares, pentagram, contours of both orientations} x view x coordinate system", N: oracle.Prod(radR...),
+		Check: func(i int64, r *fw.R) { checkProgram(r, progR(i), main3, true) },
+		Desc:  func(i int64) string { return progR(i).String() }})
 
 	// G: gradients with more stops
 	fs = append(fs, fw.Family{Name: "G gradient stop lists x {SVG, PDF}", N: int64(len(gradientCases) * 2),
